@@ -2559,11 +2559,11 @@ theorem trRange_const_one : TrRange (fun _ _ => 1) (fun _ _ _ => 1) := by
   · intro p x
     exact fresh_range_sound' _ _ _ (Or.inr (by simp [lbOK])) (Or.inr (by simp [ubOK]))
 
-/-- the history theorem applies to a non-trivial history: from x0 ∈ [7,9], x1 = −2 the operations `abs(x1)` (redirect to a constant →
+/-- the history theorem applies to a non-trivial history: from x0 ∈ [7,9], x1 = −2 the operations `x0^(−2)` (negative exponent, lb > 0), `abs(x1)` (redirect to a constant →
 fixed variable), `2·x0 + x2` (new variable), `max(x0, x3)`, `exp(x4)`, the strict comparison `−x0 > 17/2` (not normalised: redirected to
 `x0 < −17/2`) and the equality `2·x1 == 4`: all recorded bounds of the reachable state are sound -/
 example : BoundsSound (fun _ _ => 1) (fun _ _ _ => 1)
-    (runOps exAbsState [.abs 1, .lin 0 [(2, 0), (1, 2)], .max [0, 3], .un .exp 4, .clin 2 (17 / 2) [(-1, 0)], .clin 0 4 [(2, 1)]]) := by
+    (runOps exAbsState [.pow 0 (-2), .abs 1, .lin 0 [(2, 0), (1, 3)], .max [0, 4], .un .exp 5, .clin 2 (17 / 2) [(-1, 0)], .clin 0 4 [(2, 1)]]) := by
   have hinit : BoundsSound (fun _ _ => 1) (fun _ _ _ => 1) exAbsState :=
     C06_initial_sound _ _ exAbsState (fun i => by
       by_cases h : i < 2
@@ -2572,7 +2572,7 @@ example : BoundsSound (fun _ _ => 1) (fun _ _ _ => 1)
       · exact getD_ge _ _ _ (by simp [exAbsState]; omega))
   have hwf : exAbsState.WF := by simp [State.WF, exAbsState]
   refine (C06_history_sound _ _ trRange_const_one _ exAbsState hwf hinit ?_).1
-  exact ⟨trivial, trivial, trivial, trivial, by simp [Covered], trivial, by simp [Covered], trivial,
-    by simp [Covered, KindOK], trivial, by simp [Covered, KindOK], trivial, trivial⟩
+  exact ⟨by simp [Covered], fun _ => Or.inr (by decide +kernel), trivial, trivial, trivial, trivial, by simp [Covered], trivial,
+    by simp [Covered], trivial, by simp [Covered, KindOK], trivial, by simp [Covered, KindOK], trivial, trivial⟩
 
 end MpVerif.C06
